@@ -12,7 +12,6 @@ driver for the reconnect model (engine `reconnect`).  Time in ticks of 1/1024 s.
       reply: one record per op / round, separated by ` | `:
         `<events or -> ; c=<0|1> x=<0|1> o=<0|1> s=<sock|-> ca=<id|-> l=<id|->`
         events: `+<id>` socket opened, `-<id>` closed, `?<id>=<code>` connect_ex
-  region D27 <timeout> <rec> <retry> <op> …                       → true/false  (regionD27)
   region D28 <timeout> <rec> <retry> <op> … / <kind> <k> <dt> …   → true/false  (discardsInProgress in the listening phase)
 -/
 namespace Ioflo.Drv.Reconnect
@@ -86,14 +85,6 @@ def reply (ws : List String) : Option String :=
         | _ => none
       let all := recs ++ recs2
       pure (if all.isEmpty then "-" else " | ".intercalate all)
-  | "region" :: "D27" :: t :: r :: retry :: rest => do
-      let c ← initOf t r retry
-      let (pre, post) := splitSlash rest
-      let ops ← pre.mapM op?
-      let k ← match post with
-        | kind :: _ :: _ :: _ => (kind? kind).map some     -- a listening phase with at least one round
-        | _ => some none
-      pure (toString (regionD27 c ops k))
   | "region" :: "D28" :: t :: r :: retry :: rest => do
       let c ← initOf t r retry
       let (pre, post) := splitSlash rest
